@@ -463,6 +463,10 @@ def check_getDisplayCompID(rep, prog):
         return isinstance(x, Ref) and pelx.table_of(I, x) == creators
     in_creators = [a for a in atoms if isinstance(a, Op) and a.op == "in" and a.args[0] == cre and is_creator_tbl(a.args[1])]
     name_of = [a for a in atoms if isinstance(a, Op) and a.op == "getitem" and is_creator_tbl(a.args[0]) and a.args[1] == cre]
+    # creatorIDs.get(creatorID[, default]): the default stands for a creator that is not in the table
+    name_get = [a for a in atoms if isinstance(a, Op) and a.op == "dictget" and is_creator_tbl(a.args[0]) and a.args[1] == cre
+                and isinstance(a.args[2], Const) and a.args[2].v != "PHYP"]
+    name_of = name_of + name_get
     others = [a for a in atoms if a not in in_creators and a not in name_of]
     if not name_of:
         rep.fail(rule, where, "if creatorID in creatorIDs and creatorIDs[creatorID] == 'PHYP'",
@@ -473,13 +477,13 @@ def check_getDisplayCompID(rep, prog):
     n = 0
     bad = None
     for bits in itertools.product([False, True], repeat=len(in_creators) + len(others)):
-        for cname in ("PHYP", "BMC"):
+        for cname in ("PHYP", "BMC") + (("<absent>",) if name_get else ()):
             for c in comps:
                 env = {comp: c}
                 for a, b in zip(in_creators + others, bits):
                     env[a] = b
                 for a in name_of:
-                    env[a] = cname
+                    env[a] = cname if cname != "<absent>" else (a.args[2].v if a in name_get else "BMC")
                 try:
                     leaf = pelx.select_leaf(r, env)
                 except Exception as e:
